@@ -640,7 +640,7 @@ FLEET['G23'] = dict(
 # the wrong way REJECTS valid sentences here (if a then if b then s else s else s)
 FLEET['G24'] = dict(
     terms=[
-        ('kif', T('string', 'if')),
+        ('kif', T('string', 'if', prec=3)),      # a level on the FIRST term of the if-rules: a rule's implicit level is its LAST term's (S114)
         ('kthen', T('string', 'then', prec=1)),
         ('kelse', T('string', 'else', prec=2)),
         ('kprint', T('string', 'print')),
